@@ -233,3 +233,24 @@ Definition jac_weight (n : nat) (a b z : Q) : Q :=
   let pp := snd (jac_eval n a b z) in
   let g := rising a (n - 1) * rising b (n - 1) / (rising (a + b + 1) (n - 1) * qfact n * 2) in
   Qred (temp / (pp * p2) * g).
+
+(* ---------- one pass per node: (p_n(z), p_n'(z), weight) for the output-level correspondence *)
+Definition lege_node (n : nat) (xl z : Q) : Q * Q * Q :=
+  let '(p, pp) := lege_eval n z in (p, pp, lege_weight xl z pp).
+Definition herm_node (n : nat) (x : Q) : Q * Q * Q :=
+  let '(p1, p2) := herm_loop n 1 x 1 0 in
+  (p1, qn n * p2, qfact n / (qn n * qn n * p2 * p2)).
+Definition lag_node (n : nat) (a z : Q) : Q * Q * Q :=
+  let '(p1, p2) := lag_loop n 1 a z 1 0 in
+  let pp := (qn n * p1 - (qn n + a) * p2) / z in
+  (p1, pp, - (rising a (n - 1) / qfact (n - 1)) / (pp * qn n * p2)).
+Definition jac_node (n : nat) (a b z : Q) : Q * Q * Q :=
+  let '(p1, p2) := jac_p12 n a b z in
+  let temp := jac_temp n a b in
+  let pp := (qn n * (a - b - temp * z) * p1 + 2 * (qn n + a) * (qn n + b) * p2) / (temp * (1 - z * z)) in
+  (p1, pp, temp / (pp * p2) *
+           (rising a (n - 1) * rising b (n - 1) / (rising (a + b + 1) (n - 1) * qfact n * 2))).
+(* |p| <= tol_root |p'| and the recomputed weight within tol_w (relative) of the returned one *)
+Definition node_ok (tol_root tol_w : Q) (r : Q * Q * Q) (w : Q) : bool :=
+  let '(p, pp, mw) := r in
+  Qle_bool (Qabs p) (tol_root * Qabs pp) && Qle_bool (Qabs (mw - w)) (tol_w * Qabs w).
